@@ -827,11 +827,12 @@ class SA:
     def copy(self):
         return SA(self.a.copy(), self.kind)
 
-    def ravel(self):
-        return SA(self.a.ravel(), self.kind)
+    def ravel(self, order="C"):
+        # the wrapped object array has a memory layout of its own (a transposed view is not C-contiguous): numpy's rules apply
+        return SA(self.a.ravel(order=order), self.kind)
 
-    def flatten(self):
-        return SA(self.a.flatten(), self.kind)
+    def flatten(self, order="C"):
+        return SA(self.a.flatten(order=order), self.kind)
 
     def reshape(self, *shape):
         if len(shape) == 1 and isinstance(shape[0], (tuple, list)):
